@@ -253,20 +253,22 @@ int vnadata_set_format(vnadata_t *vdp, const char *format)
     nfields = 1;
     cur = format_copy;
     for (const char *cp = format; *cp != '\000'; ++cp) {
-	if (*cp > 0x7e) {
+	unsigned char c = (unsigned char)*cp;
+
+	if (c > 0x7e) {
 	    _vnadata_error(vdip, VNAERR_USAGE, "vnadata_set_format: "
-		    "invalid char '\\%02x' in format", *cp);
+		    "invalid char '\\%02x' in format", c);
 	    goto out;
 	}
-	if (isspace(*cp)) {
+	if (isspace(c)) {
 	    continue;
 	}
-	if (*cp == ',') {
+	if (c == ',') {
 	    ++nfields;
 	    *cur++ = '\000';
 	    continue;
 	}
-	*cur++ = isupper(*cp) ? tolower(*cp) : *cp;
+	*cur++ = isupper(c) ? tolower(c) : c;
     }
     *cur = '\000';
 
